@@ -1,4 +1,17 @@
-"""Generated program families shared by the translation-validation checks (filled in incrementally)."""
+"""Registry of generated program families shared by the translation-validation checks."""
+import fam_c09, fam_random
 
-def cases_for(prop, tier, root):
-    return []
+
+def all_families(tier, seed_base):
+    """list of {prog, family, ident} over every family that exists (used by C01 and C02)."""
+    out = []
+    out += fam_c09.programs(tier)
+    for modname in ("fam_c06", "fam_c07", "fam_c08", "fam_c10", "fam_c17", "fam_c18", "fam_c19"):
+        try:
+            mod = __import__(modname)
+        except ImportError:
+            continue
+        out += mod.programs(tier)
+    n = 120 if tier == "quick" else 3000
+    out += fam_random.programs(n, seed_base + 101, depth=3 if tier == "quick" else 4, with_hof=False)
+    return out
